@@ -354,7 +354,7 @@ func main() {
 				select {
 				case n.LockC <- mp:
 				case <-time.After(20 * time.Second):
-					r.Inconclusive("processor did not accept message within 20s")
+					r.InconclusiveCase("processor did not accept message within 20s")
 					continue
 				}
 				id := (&vaa.VAA{EmitterChain: mp.EmitterChain, EmitterAddress: mp.EmitterAddress, TargetChain: mp.TargetChain, Sequence: mp.Sequence}).MessageID()
@@ -377,7 +377,7 @@ func main() {
 							}
 						}
 					case <-deadline:
-						r.Inconclusive("no SignedObservation for " + id + " within 20s")
+						r.InconclusiveCase("no SignedObservation for " + id + " within 20s")
 						found = true
 					}
 				}
